@@ -37,6 +37,12 @@ var c07Constructs = []c07Construct{
 	{"undefined-function-arg", "run", "toJSON(nosuch)", 7, regexp.MustCompile(`^undefined variable "nosuch"`), false},
 	{"untrusted-input", "run", "github.event.issue.title", 0, regexp.MustCompile(`is potentially untrusted`), false},
 	{"untrusted-input-inner", "run", "toJSON(github.event.issue.body)", 7, regexp.MustCompile(`is potentially untrusted`), false},
+	{"func-arg-1st", "run", "startsWith(null, 'a')", 11, regexp.MustCompile(`^1st argument of function call is not assignable`), false},
+	{"func-arg-2nd", "run", "startsWith('abc', null)", 18, regexp.MustCompile(`^2nd argument of function call is not assignable`), false},
+	{"func-arg-variadic-2nd", "run", "hashFiles('a', true)", 15, regexp.MustCompile(`^2nd argument of function call is not assignable`), false},
+	{"func-arg-variadic-3rd", "run", "hashFiles('a', 'bb', null)", 21, regexp.MustCompile(`^3rd argument of function call is not assignable`), false},
+	{"compare-operand", "run", "github.sha < true", 0, regexp.MustCompile(`value cannot be compared to`), false},
+	{"index-operand", "run", "github.sha[0]", 0, regexp.MustCompile(`^index access operand must be type of object or array`), false},
 	{"availability", "if", "secrets.x == 'a'", 0, regexp.MustCompile(`^context "secrets" is not allowed here`), false},
 	{"bare-if-first", "if", "nosuch == 1", 0, regexp.MustCompile(`^undefined variable "nosuch"`), true},
 	{"bare-if-inner", "if", "1 == nosuch", 5, regexp.MustCompile(`^undefined variable "nosuch"`), true},
@@ -166,7 +172,7 @@ func c07Run(r *vReport, cs *c07Case, class string) {
 func TestVerifC07(t *testing.T) {
 	r := vNewReport("C07")
 	defer r.Write(t)
-	r.Extra["rule"] = "12 expression constructs (lexer, parser, semantic first/inner token, untrusted input, availability, bare if:) x extra indentation 0-4 x lines above 0-3 x block/flow x plain/single/double x prefix 0-5 x preceding placeholders 0-2 x spaces after ${{ 0-3; every non-exempt scalar position of the 4 seeds x plain/single/double x 0-3 spaces with an undefined variable; 26 per-rule templates (ids, env names, permission scopes, runner labels, needs, events, activity types, cron, matrix duplicates / exclude, action inputs and refs, timeout, credentials, if-cond, workflow call, dispatch default, input type, unexpected / duplicate keys) x quoting x lines above with the marker's position as expectation; key constructs (unexpected, duplicate) and value constructs (enum, shell name, glob character at index 0-4) x indentation x lines above x style x quoting; plus line/column range of every non-YAML-level diagnostic over positions x fragments of the workflow seeds. class = construct x style x quoting; all non-trivial"
+	r.Extra["rule"] = "18 expression constructs (lexer, parser, semantic first/inner token, untrusted input, availability, bare if:) x extra indentation 0-4 x lines above 0-3 x block/flow x plain/single/double x prefix 0-5 x preceding placeholders 0-2 x spaces after ${{ 0-3; every non-exempt scalar position of the 4 seeds x plain/single/double x 0-3 spaces with an undefined variable; 26 per-rule templates (ids, env names, permission scopes, runner labels, needs, events, activity types, cron, matrix duplicates / exclude, action inputs and refs, timeout, credentials, if-cond, workflow call, dispatch default, input type, unexpected / duplicate keys) x quoting x lines above with the marker's position as expectation; key constructs (unexpected, duplicate) and value constructs (enum, shell name, glob character at index 0-4) x indentation x lines above x style x quoting; plus line/column range of every non-YAML-level diagnostic over positions x fragments of the workflow seeds. class = construct x style x quoting; all non-trivial"
 	r.Extra["assumptions"] = []string{"one-line ASCII scalars without escape sequences only (as the statement says)"}
 	if raw := vReplayInput(); raw != nil {
 		var cs c07Case
